@@ -91,6 +91,38 @@ def judge(ctx, p, rng):
     res.sample("override-" + o_edit[0],
                {"schema": p.xml, "text": p.text, "overrides": specs,
                 "edited_text": edited}, 1)
+    # the documented loader class used directly, and used twice: the
+    # option list belongs to the loader, not to one load
+    if rng.random() < 0.35:
+        import io
+        import ZConfig
+        from ZConfig import cmdline
+        res.count("loader_object_reuse")
+        outs = []
+        try:
+            ld = cmdline.ExtendedConfigLoader(p.schema)
+            for s_ in specs:
+                ld.addOption(s_)
+            for _ in (1, 2):
+                try:
+                    cfg, _h = ld.loadFile(io.StringIO(p.text))
+                    outs.append(("ok", outcome.canon_value(cfg)))
+                except ZConfig.ConfigurationError:
+                    outs.append(("reject",))
+                except Exception as e:  # noqa
+                    outs.append(("reject", "internal", type(e).__name__))
+        except ZConfig.ConfigurationError:
+            outs = [("reject",), ("reject",)]
+        want = key(o_edit)
+        for n_, o_ in enumerate(outs):
+            if o_[:1] != want[:1] or (o_[0] == "ok" and o_[1] != want[1]):
+                res.violate("reused-loader-differs-from-edit",
+                            dict(case, load=n_ + 1),
+                            list(want)[:1], list(o_)[:1],
+                            detail="load %d on one ExtendedConfigLoader: "
+                            "overrides=%r text=%r" % (n_ + 1, specs, p.text),
+                            vsig="reuse|%d|%s" % (n_, o_[0]))
+                break
     if key(o_over) != key(o_edit):
         res.violate("override-differs-from-edit", case,
                     {"edited_text": edited,
